@@ -1151,7 +1151,7 @@ func replayFromOb(cf *checkFlags, eng *Eng, ob *Obligation, rp map[string]interf
 		rp["replay_output"] = truncate(out, 4000)
 		return false, "replay did not run: " + err.Error()
 	}
-	canPanic := ri.Contract.NoPanicCheck || ri.Contract.MayPanic
+	canPanic := ri.Contract.NoPanicCheck || ri.Contract.MayPanic || len(ri.Contract.PanicsIf) > 0
 	confirmed, detail := false, ""
 	if ro.Panicked && !canPanic {
 		confirmed, detail = true, "confirmed: the real function panics on this input: "+ro.Panic
